@@ -90,7 +90,8 @@ def gen_quic_conn(R, cid, cfg, used, **epkw):
     zp = cfg.get("zero_cid_pct", 15)
     q = {"suite": suite, "offered": offered, "dcid_len": H.range(8, 20), "scid_c_len": _cid_len(H, zp),
          "scid_s_len": _cid_len(H, zp // 2)}
-    q["ch_len"] = H.weighted([(H.range(200, 600), 50), (H.range(601, 1100), 25), (H.range(1300, 2600), 25)])
+    lp = cfg.get("long_ch_pct", 25)
+    q["ch_len"] = H.weighted([(H.range(200, 600), 100 - lp - 25), (H.range(601, 1100), 25), (H.range(1300, 2600), lp)])
     # ClientHello split into CRYPTO frames, order of frames, distribution over packets
     nfr = H.weighted([(1, 45), (2, 25), (3, 15), (H.range(4, 6), 15)])
     q["ch_cuts"] = sorted(set(H.range(1, 199) for _ in range(nfr - 1)))      # permille positions
@@ -112,6 +113,8 @@ def gen_quic_conn(R, cid, cfg, used, **epkw):
     q["ncid"] = {"s": H.range(0, 3) if H.chance(cfg.get("ncid_pct", 40)) else 0,
                  "c": H.range(0, 2) if H.chance(cfg.get("ncid_pct", 40) // 2) else 0}
     q["early_s"] = H.chance(25)       # server sends 1-RTT data right after its handshake flight
+    # retransmitted handshake datagrams (exact copies seen twice by the tap)
+    q["hs_dup"] = {"c": H.chance(cfg.get("hs_dup_pct", 15)), "s": H.chance(cfg.get("hs_dup_pct", 15))}
     z = None
     q["c_fin_1rtt"] = H.chance(40)
     # 0-RTT when the negotiated suite is not the first one offered hits a known finding (KF-2): kept rare
@@ -482,6 +485,8 @@ def build_units(conn):
         return idx
 
     flights.append({"c": client_first_flight(None), "s": []})
+    if (q.get("hs_dup") or {}).get("c"):
+        acts[flights[-1]["c"][0]] = ["dup", 1]
     flight_done()
     if q.get("retry"):
         rscid = R.fork("rscid").bytes(q["retry_scid_len"])
@@ -535,6 +540,8 @@ def build_units(conn):
             pks = [packet("s", "1rtt", pk["frames"], pk["pnlen"], pk.get("skip", 0), extra=pk) for pk in dg["pk"]]
             sidx.append(datagram("s", pks, plain=False))
     flights.append({"c": [], "s": sidx})
+    if (q.get("hs_dup") or {}).get("s"):
+        acts[sidx[0]] = ["dup", 1]
     flight_done()
     # client: Initial[ACK] + Handshake[ACK, CRYPTO(Fin)]
     C.dcid = S.scid
@@ -692,7 +699,7 @@ def reduction_candidates(conn):
                 c = copy.deepcopy(conn)
                 del c["q"]["script"][i][key]
                 yield "flight %d: no %s" % (i, key), c
-    for key, simple in (("retry", False), ("zero_rtt", None), ("early_s", False), ("s_coalesce", False),
+    for key, simple in (("retry", False), ("zero_rtt", None), ("early_s", False), ("hs_dup", None), ("s_coalesce", False),
                         ("c_coalesce", False), ("ch_cuts", []), ("pad_mode", "frames")):
         if q.get(key) not in (simple, None, False, []):
             c = copy.deepcopy(conn)
